@@ -109,5 +109,148 @@ theorem run_refines (kind : Kind) (parse : ρ → Option ν) (ops : List (Op κ 
   | cons op ops ih =>
     simp only [specRun, run, step_refines kind parse st op, ih]
 
+/-! ### equality -/
+
+theorem get_abs (kind : Kind) (parse : ρ → Option ν) (a : Store κ ρ ν) (k : κ) :
+    absStore parse (step kind parse a (.get k)).1 = absStore parse a ∧
+    (step kind parse a (.get k)).2 =
+      (match lookup k (absStore parse a) with
+       | none => Out.err .keyError
+       | some none => Out.err derr
+       | some (some v) => Out.val v) := by
+  have h := step_refines kind parse a (.get k)
+  simp only [specStep] at h
+  cases hl : lookup k (absStore parse a) with
+  | none => rw [hl] at h; simp only [Prod.mk.injEq] at h; exact ⟨h.1.symm, h.2.symm⟩
+  | some o =>
+    cases o with
+    | none => rw [hl] at h; simp only [Prod.mk.injEq] at h; exact ⟨h.1.symm, h.2.symm⟩
+    | some v => rw [hl] at h; simp only [Prod.mk.injEq] at h; exact ⟨h.1.symm, h.2.symm⟩
+
+theorem eqLoop_refines [BEq ν] (parse : ρ → Option ν) (ks : List κ) (a b : Store κ ρ ν) :
+    absStore parse (eqLoop parse ks a b).1 = absStore parse a ∧
+    absStore parse (eqLoop parse ks a b).2.1 = absStore parse b ∧
+    (eqLoop parse ks a b).2.2 = specEqLoop ks (absStore parse a) (absStore parse b) := by
+  induction ks generalizing a b with
+  | nil => simp [eqLoop, specEqLoop]
+  | cons k ks ih =>
+    obtain ⟨ha1, ha2⟩ := get_abs ⟨false, false⟩ parse a k
+    obtain ⟨hb1, hb2⟩ := get_abs ⟨false, false⟩ parse b k
+    generalize hra : step ⟨false, false⟩ parse a (.get k) = ra at ha1 ha2
+    generalize hrb : step ⟨false, false⟩ parse b (.get k) = rb at hb1 hb2
+    obtain ⟨a', oa⟩ := ra
+    obtain ⟨b', ob⟩ := rb
+    simp only at ha1 ha2 hb1 hb2
+    unfold eqLoop specEqLoop
+    rw [hra]
+    cases hla : lookup k (absStore parse a) with
+    | none => rw [hla] at ha2; subst ha2; simp [ha1]
+    | some o =>
+      cases o with
+      | none => rw [hla] at ha2; subst ha2; simp [ha1]
+      | some x =>
+        rw [hla] at ha2; subst ha2
+        simp only
+        rw [hrb]
+        cases hlb : lookup k (absStore parse b) with
+        | none => rw [hlb] at hb2; subst hb2; simp [ha1, hb1]
+        | some o =>
+          cases o with
+          | none => rw [hlb] at hb2; subst hb2; simp [ha1, hb1]
+          | some y =>
+            rw [hlb] at hb2; subst hb2
+            simp only
+            by_cases hxy : (x == y) = true
+            · simp only [hxy, if_true]
+              have := ih a' b'
+              rw [ha1, hb1] at this
+              exact this
+            · simp [hxy, ha1, hb1]
+
+theorem eq_refines [BEq ν] (parse : ρ → Option ν) (a b : Store κ ρ ν) :
+    absStore parse (eqContainers parse a b).1 = absStore parse a ∧
+    absStore parse (eqContainers parse a b).2.1 = absStore parse b ∧
+    (eqContainers parse a b).2.2 = specEq (absStore parse a) (absStore parse b) := by
+  unfold eqContainers specEq
+  rw [abs_keys, abs_keys]
+  by_cases h : sameKeySet (a.map (·.1)) (b.map (·.1)) = true
+  · simp only [h, if_true]; exact eqLoop_refines parse _ a b
+  · simp [h]
+
+end
+
+/-! ### cached row count -/
+
+section
+variable {κ : Type} [BEq κ]
+
+/-- The cache is empty or holds the length of the current first column. -/
+def RCInv (s : RC κ) : Prop := s.cache = none ∨ ∃ k n rest, s.cols = (k, n) :: rest ∧ s.cache = some n
+
+theorem rcSerLoop_some (m : Nat) (cols : List (κ × Nat)) :
+    rcSerLoop (some m) cols = (some m, cols.all (fun kv => kv.2 == m)) := by
+  induction cols with
+  | nil => rfl
+  | cons x xs ih =>
+    obtain ⟨k, n⟩ := x
+    by_cases h : (n == m) = true
+    · have : (n != m) = false := by simp [bne, h]
+      simp [rcSerLoop, this, ih, h]
+    · have h' : (n == m) = false := by simpa using h
+      have : (n != m) = true := by simp [bne, h']
+      simp [rcSerLoop, this, h']
+
+theorem rcStep_refines (binary : Bool) (s : RC κ) (hinv : RCInv s) (op : RCOp κ) :
+    RCInv (rcStep binary s op).1 ∧
+    rcSpecStep binary s.cols op = ((rcStep binary s op).1.cols, (rcStep binary s op).2) := by
+  cases op with
+  | set k n => exact ⟨Or.inl rfl, rfl⟩
+  | del k =>
+    simp only [rcStep, rcSpecStep]
+    by_cases hg : (!binary && s.cols.length == 1) = true
+    · simp only [hg, if_true]; exact ⟨hinv, trivial⟩
+    · simp only [hg, Bool.false_eq_true, if_false]
+      cases lookup k s.cols with
+      | none => exact ⟨hinv, rfl⟩
+      | some _ => exact ⟨Or.inl rfl, rfl⟩
+  | ser =>
+    simp only [rcStep, rcSpecStep]
+    cases hc : s.cols with
+    | nil => simp only [List.isEmpty_nil, if_true, rcSpecSer]; exact ⟨hinv, by rw [hc]⟩
+    | cons x xs =>
+      obtain ⟨k, n⟩ := x
+      have hloop : rcSerLoop s.cache ((k, n) :: xs) = (some n, xs.all (fun kv => kv.2 == n)) := by
+        rcases hinv with h | ⟨k', n', rest, h1, h2⟩
+        · rw [h]; simp [rcSerLoop, rcSerLoop_some]
+        · rw [hc] at h1
+          simp only [List.cons.injEq, Prod.mk.injEq] at h1
+          rw [h2, rcSerLoop_some]
+          simp [h1.1.2]
+      simp only [List.isEmpty_cons, Bool.false_eq_true, if_false, hloop, rcSpecSer]
+      by_cases hall : xs.all (fun kv => kv.2 == n) = true
+      · simp only [hall, if_true]
+        exact ⟨Or.inr ⟨k, n, xs, rfl, rfl⟩, trivial⟩
+      · simp only [hall, Bool.false_eq_true, if_false]
+        exact ⟨Or.inr ⟨k, n, xs, rfl, rfl⟩, trivial⟩
+  | count =>
+    simp only [rcStep, rcSpecStep]
+    rcases hinv with h | ⟨k, n, rest, h1, h2⟩
+    · rw [h]
+      cases hc : s.cols with
+      | nil => exact ⟨Or.inl h, by simp [hc]⟩
+      | cons x xs =>
+        obtain ⟨k, n⟩ := x
+        exact ⟨Or.inr ⟨k, n, xs, rfl, rfl⟩, rfl⟩
+    · rw [h2, h1]
+      exact ⟨Or.inr ⟨k, n, rest, h1, h2⟩, by simp [h1]⟩
+
+theorem rcRun_refines (binary : Bool) (ops : List (RCOp κ)) (s : RC κ) (hinv : RCInv s) :
+    rcSpecRun binary s.cols ops = ((rcRun binary s ops).1.cols, (rcRun binary s ops).2) := by
+  induction ops generalizing s with
+  | nil => rfl
+  | cons op ops ih =>
+    obtain ⟨h1, h2⟩ := rcStep_refines binary s hinv op
+    simp only [rcSpecRun, rcRun, h2, ih _ h1]
+
 end
 end BiotiteModel.C06
